@@ -5,7 +5,7 @@ from checks import ctxcommon
 
 PROP = "C01"
 GENERATED = ['OpSemantics', 'DtypeTables']  # generated files this check's tie depends on
-LEAN_MODULES = ["Properties.C01"]
+LEAN_MODULES = ["Properties.C01", "Properties.C03p"]
 RULE = (
     "corpus (witnesses of past findings) first; then seeded contexts: pick an assignment of sizes to names a,b,d (c,e derived) and tuples to "
     "groups g,h, pick 1-4 annotated tensors over a 22-form dimension alphabet (literal, name, name=literal, name=expression, expression, "
